@@ -49,8 +49,18 @@ CONSTANTS
   WithRewrite,   \* Save may overwrite the last uncommitted entry in a new term
   WithAppend,    \* explore reopen + append + second crash
   AppSizes,      \* entry sizes used by the appended save
+  WithCutCrash,  \* explore the crash inside cut() between the sync of the new head and its rename
+  StaleTmpAsBuilt, \* TRUE = as built: the file pipeline reopens a left-over .tmp without truncating it
+                 \* (file_pipeline.go:75) and ReadAll does not restore w.state (wal.go:443-562)
+  WithCorrupt,   \* explore single-word corruption of a cleanly synced log
+  TypeInCrc,     \* FALSE = as built: the CRC covers rec.Data only, the record type is unprotected
   ZeroToEndOn,   \* TRUE = as built (ReadAll in write mode zeroes the tail)
   TornShift      \* 1 = as built (isTornEntry chunks start after the length word)
+
+\* corrupted words (Corrupt action): never equal to a stored word or to zero
+BadData == -1   \* a byte of the record's type/crc/data/padding bytes other than bit 0 of the type changed
+BadType == -2   \* bit 0 of the type byte changed (entryType 2 <-> stateType 3); lives in word 1 of the record
+BadLen  == -3   \* the length word changed
 
 K == 4096                       \* > any record length
 Enc(rid, j) == rid * K + j + 1  \* word j (0 = length word) of record rid
@@ -73,17 +83,19 @@ VARIABLES
   chain,    \* encoder chain (abstract rolling CRC)
   wstate,   \* w.state
   lastIdx, lastTerm, commit,   \* raft-side view used to generate legal saves
-  phase,    \* "write" | "syncing" | "opened" | "syncing2" | "done" | "failed"
+  phase,    \* "write" | "syncing" | "cuthead" | "opened" | "syncing2" | "cut2" | "done" | "failed" | "cdone" | "crejected"
   cutp,     \* the sync in progress belongs to a cut
   lastcut,  \* the last completed operation ended with a cut
   ops,      \* history of operations (scenario emitted to the replayer)
   crash1,   \* [lost, soff, tail] of the first crash
   rec1,     \* outcome of the first recovery
   app,      \* the appended save of epoch 2
-  crash2, rec2
+  crash2, rec2,
+  stale,    \* rids of the head records left in the pipeline's .tmp by a crash inside cut (<<>> = clean)
+  cor       \* the corrupted word [seg, x, kind] ("none" before)
 
 vars == <<log, flushed, durable, fsize, foff, woff, chain, wstate, lastIdx, lastTerm, commit,
-          phase, cutp, lastcut, ops, crash1, rec1, app, crash2, rec2>>
+          phase, cutp, lastcut, ops, crash1, rec1, app, crash2, rec2, stale, cor>>
 
 Max(a, b) == IF a > b THEN a ELSE b
 Min(a, b) == IF a < b THEN a ELSE b
@@ -120,6 +132,8 @@ Init ==
   /\ app = <<>>
   /\ crash2 = [lost |-> {}]
   /\ rec2 = [ok |-> FALSE]
+  /\ stale = <<>>
+  /\ cor = [seg |-> 0, x |-> 0, kind |-> "none"]
 
 \* all sequences over S of length 0..n
 RECURSIVE SeqsUpTo(_, _)
@@ -141,12 +155,13 @@ SumLen(rs) == LET S[i \in 0..Len(rs)] == IF i = 0 THEN 0 ELSE S[i - 1] + rs[i].l
 (* wal.go:926 Save *)
 Save(hk, sizes, rw) ==
   LET n == Len(sizes)
-      tm == IF hk = "term" THEN lastTerm + 1 ELSE lastTerm
+      tm == IF hk \in {"term", "tc"} THEN lastTerm + 1 ELSE lastTerm
       first == IF rw THEN lastIdx ELSE lastIdx + 1
       newLast == IF n > 0 THEN first + n - 1 ELSE lastIdx
       st == CASE hk = "none" -> EmptyHS
                [] hk = "commit" -> <<wstate[1], wstate[2], newLast>>
                [] hk = "term" -> <<tm, 1, Min(commit, newLast)>>
+               [] hk = "tc" -> <<tm, 1, newLast>>          \* new term and everything committed (one Ready)
       mustSync == n # 0 \/ (st # EmptyHS /\ (st[1] # wstate[1] \/ st[2] # wstate[2]))
       recs == EncodeSave(sizes, first, tm, st, Len(log), woff, chain, TailSeg, Len(ops) + 1)
       total == SumLen(recs)
@@ -156,6 +171,7 @@ Save(hk, sizes, rw) ==
      /\ (hk = "none" => lastTerm >= 1)
      /\ (hk = "commit" => wstate # EmptyHS)
      /\ (rw => WithRewrite /\ hk = "term" /\ n >= 1 /\ lastIdx > commit /\ lastIdx >= 1)
+     /\ (hk = "tc" => n >= 1)
      /\ log' = log \o recs
      /\ woff' = woff + total
      /\ chain' = Len(log) + Len(recs)           \* every record of a save has Data
@@ -168,7 +184,7 @@ Save(hk, sizes, rw) ==
      /\ IF docut \/ mustSync
         THEN /\ phase' = "syncing" /\ cutp' = docut /\ flushed' = Len(log')
         ELSE /\ phase' = "write" /\ UNCHANGED <<cutp, flushed>>       \* stays in the page-writer buffer
-     /\ UNCHANGED <<durable, fsize, foff, crash1, rec1, app, crash2, rec2>>
+     /\ UNCHANGED <<durable, fsize, foff, crash1, rec1, app, crash2, rec2, stale, cor>>
 
 (* wal.go:961 SaveSnapshot (always synced) *)
 SaveSnap ==
@@ -182,32 +198,38 @@ SaveSnap ==
      /\ ops' = Append(ops, [k |-> "snap", hs |-> <<lastTerm, 0, commit>>, first |-> commit, term |-> lastTerm,
                             ws |-> <<>>, sync |-> TRUE, cut |-> FALSE])
      /\ phase' = "syncing" /\ cutp' = FALSE /\ flushed' = Len(log') /\ lastcut' = FALSE
-     /\ UNCHANGED <<durable, fsize, foff, wstate, lastIdx, lastTerm, commit, crash1, rec1, app, crash2, rec2>>
+     /\ UNCHANGED <<durable, fsize, foff, wstate, lastIdx, lastTerm, commit, crash1, rec1, app, crash2, rec2, stale, cor>>
 
-(* wal.go:800 sync completes; for a cut also wal.go:731-797 (new head is written and synced to a
-   .tmp file before the rename, so a crash in between shows the image of "sync done, no new file",
-   which is Crash1({}) from the syncing phase). *)
+\* head of a new segment written by cut(): crc(prev), metadata, state (only when w.state is not empty:
+\* wal.go:916 saveState returns early for an empty state).  seg 0 stands for the pipeline's .tmp file.
+HeadRecs(ns, c, st, rid0, opn) ==
+  LET r1 == Rec("crc", CrcWords, 0, 0, 0, 0, c, ns, 0, opn)
+      r2 == Rec("meta", MetaWords, 0, 0, 0, 0, c, ns, CrcWords, opn)
+      c2 == IF MetaWords > 2 THEN rid0 + 2 ELSE c
+      r3 == Rec("state", StateWords, 0, st[1], st[2], st[3], c2, ns, CrcWords + MetaWords, opn)
+  IN IF st = EmptyHS THEN <<r1, r2>> ELSE <<r1, r2, r3>>
+
+(* wal.go:800 sync completes.  For a cut (wal.go:716-798) this is the sync of the OLD segment; the new head
+   is then written and synced into the pipeline's .tmp file and only afterwards renamed: phase "cuthead". *)
 SyncDone ==
   /\ phase = "syncing"
-  /\ phase' = "write"
-  /\ cutp' = FALSE /\ lastcut' = cutp
-  /\ IF ~cutp
-     THEN /\ durable' = flushed
-          /\ foff' = woff
-          /\ fsize' = [fsize EXCEPT ![TailSeg] = Max(@, woff)]
-          /\ UNCHANGED <<log, flushed, woff, chain>>
-     ELSE LET ns == TailSeg + 1
-              r1 == Rec("crc", CrcWords, 0, 0, 0, 0, chain, ns, 0, Len(ops))
-              r2 == Rec("meta", MetaWords, 0, 0, 0, 0, chain, ns, CrcWords, Len(ops))
-              c2 == IF MetaWords > 2 THEN Len(log) + 2 ELSE chain
-              r3 == Rec("state", StateWords, 0, wstate[1], wstate[2], wstate[3], c2, ns, CrcWords + MetaWords, Len(ops))
-              head == IF wstate = EmptyHS THEN <<r1, r2>> ELSE <<r1, r2, r3>>
-          IN /\ log' = log \o head
-             /\ flushed' = Len(log') /\ durable' = Len(log')
-             /\ fsize' = Append([fsize EXCEPT ![TailSeg] = Max(foff, woff)], SegWords)   \* Truncate(foff) then flush
-             /\ foff' = SumLen(head) /\ woff' = SumLen(head)
-             /\ chain' = (IF wstate = EmptyHS THEN c2 ELSE Len(log'))
-  /\ UNCHANGED <<wstate, lastIdx, lastTerm, commit, ops, crash1, rec1, app, crash2, rec2>>
+  /\ durable' = flushed
+  /\ foff' = woff
+  /\ fsize' = [fsize EXCEPT ![TailSeg] = IF cutp THEN Max(foff, woff) ELSE Max(@, woff)]   \* cut: Truncate(foff), flush
+  /\ phase' = (IF cutp THEN "cuthead" ELSE "write")
+  /\ lastcut' = FALSE
+  /\ UNCHANGED <<log, flushed, woff, chain, cutp, wstate, lastIdx, lastTerm, commit, ops, crash1, rec1, app, crash2, rec2, stale, cor>>
+
+CutFinish ==
+  /\ phase = "cuthead"
+  /\ LET head == HeadRecs(TailSeg + 1, chain, wstate, Len(log), Len(ops))
+     IN /\ log' = log \o head
+        /\ flushed' = Len(log') /\ durable' = Len(log')
+        /\ fsize' = Append(fsize, SegWords)
+        /\ foff' = SumLen(head) /\ woff' = SumLen(head)
+        /\ chain' = (IF wstate = EmptyHS THEN (IF MetaWords > 2 THEN Len(log) + 2 ELSE chain) ELSE Len(log'))
+  /\ phase' = "write" /\ cutp' = FALSE /\ lastcut' = TRUE
+  /\ UNCHANGED <<wstate, lastIdx, lastTerm, commit, ops, crash1, rec1, app, crash2, rec2, stale, cor>>
 
 ---------------------------------------------------------------------------
 (* Disk images                                                             *)
@@ -267,9 +289,11 @@ Decode(f, o, c, last) ==
              rem == Len(f) - o
          IN IF n > rem THEN [k |-> "big"]                \* decoder.go:85 max entry size limit exceeded
             ELSE IF n > rem - 1 THEN [k |-> "ueof"]      \* io.ReadFull short read
-            ELSE LET intact == \A j \in 1..n : f[o + j + 1] = Enc(rid, j)
+            ELSE LET flipped == n >= 1 /\ f[o + 2] = BadType     \* bit 0 of the type byte changed, Data intact
+                     intact == \A j \in 1..n : \/ f[o + j + 1] = Enc(rid, j)
+                                                \/ (j = 1 /\ flipped /\ ~TypeInCrc)
                      crcok == r.t = "crc" \/ r.prev = c  \* crcType skips validation (decoder.go:108)
-                 IN IF intact /\ crcok THEN [k |-> "ok", rid |-> rid, next |-> o + r.len]
+                 IN IF intact /\ crcok THEN [k |-> "ok", rid |-> rid, next |-> o + r.len, flip |-> flipped]
                     ELSE IF last /\ TornChunks(f, o, n) THEN [k |-> "ueof"]
                     ELSE [k |-> "crc"]
 
@@ -287,7 +311,14 @@ RA(im, st) ==
             LET r == log[d.rid]
                 st1 == [st EXCEPT !.o = d.next, !.acc = Append(@, d.rid),
                                   !.c = IF r.t = "crc" THEN @ ELSE ChainAfter(r, d.rid)]
-            IN CASE r.t = "entry" ->
+            IN CASE d.flip /\ r.t = "entry" ->        \* read as a state record: mustUnmarshalState(entry bytes)
+                      RA(im, [st1 EXCEPT !.hs = -d.rid])
+                 [] d.flip /\ r.t = "state" ->        \* read as an entry {Type: term, Term: vote, Index: commit}
+                      IF r.commit = 0 THEN RA(im, st1)
+                      ELSE IF r.commit - 1 > Len(st.ents) THEN [st EXCEPT !.err = "oob"]
+                      ELSE RA(im, [st1 EXCEPT !.ents = Append(SubSeq(st.ents, 1, r.commit - 1), -d.rid)])
+                 [] d.flip -> [st EXCEPT !.err = "badtype"]
+                 [] r.t = "entry" ->
                       IF r.idx - 1 > Len(st.ents) THEN [st EXCEPT !.err = "oob"]     \* ErrSliceOutOfRange
                       ELSE RA(im, [st1 EXCEPT !.ents = Append(SubSeq(st.ents, 1, r.idx - 1), d.rid)])
                  [] r.t = "state" -> RA(im, [st1 EXCEPT !.hs = d.rid])
@@ -350,12 +381,28 @@ Crash1(lost) ==
         /\ phase' = (IF r.ok THEN "opened" ELSE "failed")
   /\ crash1' = [lost |-> lost, soff |-> foff, tail |-> TailSeg, tsize |-> TailSizeNow]
   /\ UNCHANGED <<log, flushed, durable, fsize, foff, woff, chain, wstate, lastIdx, lastTerm, commit,
-                 cutp, lastcut, ops, app, crash2, rec2>>
+                 cutp, lastcut, ops, app, crash2, rec2, stale, cor>>
+
+(* crash inside cut() after the new head reached the .tmp file and before the rename: readers do not see
+   the .tmp (wal/util.go:80 checkWalNames), the old segments are complete and durable *)
+CrashInCut ==
+  /\ WithCutCrash /\ phase = "cuthead"
+  /\ LET head == HeadRecs(0, chain, wstate, Len(log), Len(ops))
+         r == Recover(Img1({}, foff, TailSizeNow))
+     IN /\ log' = log \o head
+        /\ stale' = [i \in 1..Len(head) |-> Len(log) + i]
+        /\ rec1' = Summary(r)
+        /\ phase' = (IF r.ok THEN "opened" ELSE "failed")
+  /\ crash1' = [lost |-> {}, soff |-> foff, tail |-> TailSeg, tsize |-> TailSizeNow]
+  /\ UNCHANGED <<flushed, durable, fsize, foff, woff, chain, wstate, lastIdx, lastTerm, commit,
+                 cutp, lastcut, ops, app, crash2, rec2, cor>>
 
 \* image after the first recovery (recomputed; Recover is deterministic)
 ImgR1 == Recover(Img1(crash1.lost, crash1.soff, crash1.tsize)).im
 
-HsVal(rid) == IF rid = 0 THEN EmptyHS ELSE <<log[rid].term, log[rid].vote, log[rid].commit>>
+HsVal(rid) == IF rid = 0 THEN EmptyHS
+              ELSE IF rid < 0 THEN <<0, log[-rid].term, log[-rid].idx>>     \* an entry decoded as a hard state
+              ELSE <<log[rid].term, log[rid].vote, log[rid].commit>>
 
 (* epoch 2: the reopened WAL appends one save (wal.go:554 encoder at lastOffset chained with lastCRC;
    w.state is NOT restored by ReadAll, so MustSync compares against the empty state) *)
@@ -370,15 +417,42 @@ Append2(hk, sz) ==
      /\ (hk = "none" => rt >= 1)
      /\ rec1.o < SegWords                    \* no cut in the appended save (bound of the instance)
      /\ log' = log \o recs
-     /\ app' = <<[k |-> "save", hs |-> st, first |-> rl + 1, term |-> tm, ws |-> <<sz>>, sync |-> TRUE, cut |-> FALSE]>>
+     /\ app' = <<[k |-> "save", hs |-> st, first |-> rl + 1, term |-> tm, ws |-> <<sz>>, sync |-> TRUE, cut |-> FALSE,
+                   nsave |-> Len(recs), nhead |-> 0]>>
      /\ phase' = "syncing2"
      /\ UNCHANGED <<flushed, durable, fsize, foff, woff, chain, wstate, lastIdx, lastTerm, commit, cutp, lastcut,
-                    ops, crash1, rec1, crash2, rec2>>
+                    ops, crash1, rec1, crash2, rec2, stale, cor>>
 
-\* records of the appended save are the last ones of log
-AppCount == IF app = <<>> THEN 0 ELSE Len(app[1].ws) + (IF app[1].hs = EmptyHS THEN 0 ELSE 1)
-AppRids == [i \in 1..AppCount |-> Len(log) - AppCount + i]
-AppEnd == rec1.o + SumLen([i \in 1..AppCount |-> log[AppRids[i]]])
+(* the appended save when the recovered tail is already past the segment size: it cuts (wal.go:951-958).
+   The new segment is the pipeline's next .tmp file - after a crash inside cut() that file still holds the
+   head written before the crash, and the new head is written over it from offset 0. *)
+Append2Cut(hk, sz) ==
+  LET rl == IF rec1.ents = <<>> THEN 0 ELSE log[rec1.ents[Len(rec1.ents)]].idx
+      rhs == HsVal(rec1.hs)
+      rt == Max(rhs[1], IF rl = 0 THEN 0 ELSE log[rec1.ents[Len(rec1.ents)]].term)
+      tm == IF hk = "term" THEN rt + 1 ELSE rt
+      st == IF hk = "term" THEN <<tm, 1, rhs[3]>> ELSE EmptyHS
+      recs == EncodeSave(<<sz>>, rl + 1, tm, st, Len(log), rec1.o, rec1.c, crash1.tail, Len(ops) + 1)
+      c2 == Len(log) + Len(recs)
+      ws == IF st # EmptyHS THEN st ELSE (IF StaleTmpAsBuilt THEN EmptyHS ELSE rhs)      \* w.state at the cut
+      head == HeadRecs(crash1.tail + 1, c2, ws, Len(log) + Len(recs), Len(ops) + 1)
+  IN /\ WithAppend /\ phase = "opened" /\ app = <<>>
+     /\ (hk = "none" => rt >= 1)
+     /\ rec1.o >= SegWords
+     /\ log' = log \o recs \o head
+     /\ app' = <<[k |-> "save", hs |-> st, first |-> rl + 1, term |-> tm, ws |-> <<sz>>, sync |-> TRUE, cut |-> TRUE,
+                   nsave |-> Len(recs), nhead |-> Len(head)]>>
+     /\ phase' = "cut2"
+     /\ UNCHANGED <<flushed, durable, fsize, foff, woff, chain, wstate, lastIdx, lastTerm, commit, cutp, lastcut,
+                    ops, crash1, rec1, crash2, rec2, stale, cor>>
+
+\* records of the appended save, and of the head written by its cut, are the last ones of log
+AppCount == IF app = <<>> THEN 0 ELSE app[1].nsave
+HeadCount == IF app = <<>> THEN 0 ELSE app[1].nhead
+AppRids == [i \in 1..AppCount |-> Len(log) - AppCount - HeadCount + i]
+HeadRids2 == [i \in 1..HeadCount |-> Len(log) - HeadCount + i]
+SumLenRids(rids) == SumLen([i \in 1..Len(rids) |-> log[rids[i]]])
+AppEnd == rec1.o + SumLenRids(AppRids)
 Touched2 == Sector(rec1.o)..Sector(AppEnd - 1)
 
 Img2(lost2) ==
@@ -399,17 +473,66 @@ Crash2(lost2) ==
         /\ phase' = (IF r.ok THEN "done" ELSE "failed")
   /\ crash2' = [lost |-> lost2]
   /\ UNCHANGED <<log, flushed, durable, fsize, foff, woff, chain, wstate, lastIdx, lastTerm, commit,
-                 cutp, lastcut, ops, crash1, rec1, app>>
+                 cutp, lastcut, ops, crash1, rec1, app, stale, cor>>
+
+(* image after the cutting append returned (everything synced: old tail, then the head before the rename) *)
+Img2Cut ==
+  LET base == ImgR1
+      t == Len(base)
+      old == base[t]
+      tailfile == SubSeq(old, 1, Min(rec1.o, Len(old))) \o CatWords(AppRids, 1, {}, 0)     \* Truncate(off), flush
+      stalew == IF stale = <<>> \/ ~StaleTmpAsBuilt THEN <<>> ELSE CatWords(stale, 1, {}, 0)
+      headw == CatWords(HeadRids2, 1, {}, 0)
+      rest == IF Len(stalew) > Len(headw) THEN SubSeq(stalew, Len(headw) + 1, Len(stalew)) ELSE <<>>
+      newfile == headw \o rest \o Zeros(SegWords - Len(headw) - Len(rest))
+  IN Append([base EXCEPT ![t] = tailfile], newfile)
+
+Crash2Cut ==
+  /\ phase = "cut2"
+  /\ LET r == Recover(Img2Cut)
+     IN /\ rec2' = Summary(r)
+        /\ phase' = (IF r.ok THEN "done" ELSE "failed")
+  /\ crash2' = [lost |-> {}]
+  /\ UNCHANGED <<log, flushed, durable, fsize, foff, woff, chain, wstate, lastIdx, lastTerm, commit,
+                 cutp, lastcut, ops, crash1, rec1, app, stale, cor>>
+
+(* single-word corruption of a log whose every record is synced (classified by where it lands) *)
+SegEnd(s) == SumLenRids(RidsOfSeg(s, flushed))
+\* candidate positions: for every record its length word, word 1 (type, crc), a middle and the last word; plus
+\* the first zero word of the tail
+Candidates(s) ==
+  UNION {LET r == log[i] IN {r.off, r.off + 1, r.off + (r.len \div 2), r.off + r.len - 1} : i \in {j \in 1..flushed : log[j].seg = s}}
+  \cup (IF s = TailSeg /\ SegEnd(s) < TailSizeNow THEN {SegEnd(s)} ELSE {})
+
+Corrupt(s, x, kind) ==
+  /\ WithCorrupt /\ phase = "write" /\ Len(ops) >= 1 /\ flushed = Len(log) /\ durable = flushed
+  /\ LET im0 == Img1({}, foff, TailSizeNow)
+         w == im0[s][x + 1]
+         okkind == CASE kind = "len" -> w = 0 \/ PosOf(w) = 0
+                     [] kind = "type" -> w # 0 /\ PosOf(w) = 1 /\ log[RidOf(w)].t \in {"entry", "state"}
+                     [] kind = "data" -> w # 0 /\ PosOf(w) >= 1
+         bad == CASE kind = "len" -> BadLen [] kind = "type" -> BadType [] kind = "data" -> BadData
+         r == Recover([im0 EXCEPT ![s][x + 1] = bad])
+     IN /\ okkind
+        /\ rec1' = Summary(r)
+        /\ phase' = (IF r.ok THEN "cdone" ELSE "crejected")
+  /\ cor' = [seg |-> s, x |-> x, kind |-> kind]
+  /\ UNCHANGED <<log, flushed, durable, fsize, foff, woff, chain, wstate, lastIdx, lastTerm, commit,
+                 cutp, lastcut, ops, crash1, app, crash2, rec2, stale>>
 
 SaveChoices ==
-  {<<hk, sizes, rw>> : hk \in {"none", "commit", "term"}, sizes \in SeqsUpTo(EntSizes, MaxEnts), rw \in BOOLEAN}
+  {<<hk, sizes, rw>> : hk \in {"none", "commit", "term", "tc"}, sizes \in SeqsUpTo(EntSizes, MaxEnts), rw \in BOOLEAN}
 
 Next ==
   \/ \E ch \in SaveChoices : Save(ch[1], ch[2], ch[3])
   \/ SaveSnap
   \/ SyncDone
+  \/ CutFinish
+  \/ CrashInCut
   \/ phase \in {"write", "syncing"} /\ \E lost \in SUBSET Touched : Crash1(lost)
-  \/ \E hk \in {"none", "term"}, sz \in AppSizes : Append2(hk, sz)
+  \/ \E hk \in {"none", "term"}, sz \in AppSizes : Append2(hk, sz) \/ Append2Cut(hk, sz)
+  \/ Crash2Cut
+  \/ WithCorrupt /\ phase = "write" /\ \E s \in 1..TailSeg : \E x \in Candidates(s), kind \in {"len", "type", "data"} : Corrupt(s, x, kind)
   \/ phase = "syncing2" /\ \E lost2 \in SUBSET Touched2 : Crash2(lost2)
 
 Spec == Init /\ [][Next]_vars
@@ -439,7 +562,7 @@ PrefixOK(s, h, dur) ==
   /\ s.ents = Replay(h, Len(s.acc)).ents
   /\ HsVal(s.hs) = Replay(h, Len(s.acc)).hs
 
-Recovered1 == phase \in {"opened", "syncing2", "done"} \/ (phase = "failed" /\ app # <<>>)
+Recovered1 == phase \in {"opened", "syncing2", "cut2", "done"} \/ (phase = "failed" /\ app # <<>>)
 
 (* every save whose sync completed is returned, in order, unmodified; possibly followed by whole later
    records; never anything that was not written *)
@@ -448,9 +571,24 @@ RecoveredIsPrefix == Recovered1 => PrefixOK(rec1, Hist1, durable)
 (* a torn tail is repairable: recovery (ReadAll, and after ErrUnexpectedEOF Repair + ReadAll) succeeds *)
 TornTailRepairable == phase # "failed"
 
-Hist2 == rec1.acc \o AppRids
-(* a second crash after reopen + append never resurrects pre-crash garbage *)
-AppendAfterRecoveryIsClean == phase = "done" => PrefixOK(rec2, Hist2, Len(rec1.acc))
+Hist2 == rec1.acc \o AppRids \o HeadRids2
+(* a second crash after reopen + append never resurrects pre-crash garbage; when the append cut, it returned
+   after two syncs, so everything is durable *)
+AppendAfterRecoveryIsClean ==
+  phase = "done" => PrefixOK(rec2, Hist2, IF app[1].cut THEN Len(Hist2) ELSE Len(rec1.acc))
+
+(* as built, recovery fails in exactly one situation (known finding C16-F02): a .tmp left by a crash inside
+   cut() is reused and its old head is longer than the new one *)
+StaleLonger == /\ app # <<>> /\ app[1].cut /\ stale # <<>> /\ StaleTmpAsBuilt
+               /\ SumLenRids(stale) > SumLenRids(HeadRids2)
+FailuresOnlyFromStaleTmp == phase = "failed" => StaleLonger
+StaleTmpAlwaysFatal == (phase = "done" /\ app # <<>> /\ app[1].cut) => ~StaleLonger
+
+(* corrupted bytes are never returned as valid: whatever recovery returns is the fold of SOME prefix *)
+CorruptOK(s) == \E k \in 0..flushed : s.ents = Replay(Hist1, k).ents /\ HsVal(s.hs) = Replay(Hist1, k).hs
+CorruptionNeverAccepted == phase = "cdone" => CorruptOK(rec1)
+(* as built it is violated in exactly one way (known finding C16-F01): the unprotected type byte *)
+CorruptAcceptedOnlyByTypeFlip == (phase = "cdone" /\ ~CorruptOK(rec1)) => (cor.kind = "type" /\ ~TypeInCrc)
 
 (* the reader's fold never reorders: indexes of returned entries are 1..n *)
 EntriesContiguous ==
@@ -459,6 +597,6 @@ EntriesContiguous ==
 TypeOK ==
   /\ flushed \in 0..Len(log) /\ durable \in 0..flushed
   /\ foff <= woff
-  /\ phase \in {"write", "syncing", "opened", "syncing2", "done", "failed"}
+  /\ phase \in {"write", "syncing", "cuthead", "opened", "syncing2", "cut2", "done", "failed", "cdone", "crejected"}
 
 =============================================================================
